@@ -15,7 +15,7 @@ import random
 from .. import canon_session, doccheck, editgen, engine_oracles, engine_run, gen, ooxml, sem
 from . import c06, c10
 
-PROFILE = {"vmerge": 0.0, "point_comment": 0.0, "comment": 0.25, "reply": 0.5, "ins": 0.2, "del": 0.2, "subst": 0.1,
+PROFILE = {"vmerge": 0.0, "point_comment": 0.0, "para_mark_rev": 0.12, "comment": 0.25, "reply": 0.5, "ins": 0.2, "del": 0.2, "subst": 0.1,
            "header": 0.0, "footer": 0.0, "odd_rev_id": 0.06, "shuffle_comments": 0.35, "comment_id_gap": 0.25}
 PROFILES = {"default": PROFILE, "stories": dict(PROFILE, header=0.6, footer=0.5)}
 
